@@ -316,7 +316,7 @@ Proof.
         split; [right; eexists; split; [reflexivity|right; reflexivity]|].
         split; [intros v' Nv'; split; [apply upd_other; exact Nv'|reflexivity]|].
         split; [intros _ X; rewrite Hpc in X; discriminate X|].
-        intros X. right. rewrite Hpc. reflexivity.
+        split; [intros X; right; rewrite Hpc; reflexivity|]. right. split; [lia|reflexivity].
 Qed.
 
 Lemma step_SW_rmw W s t i b s' : Inv W s -> valid_tid t -> pcs s t = SW_rmw i b -> gstep W s t = Some s' -> Inv W s'.
@@ -383,7 +383,8 @@ Proof.
            split; [left; unfold U; gcbn; lia|]. split; [left; reflexivity|].
            split; [intros v' Nv'; split; [apply upd_other; exact Nv'|reflexivity]|].
            split; [intros Gn _; split; [exact Gn|rewrite upd_same; reflexivity]|].
-           intros X. left. exact X.
+           split; [intros X; left; exact X|].
+           left. match goal with |- dirty ?s2 = 1 => rewrite (dirty_st s2 _ eq_refl Wn) end. reflexivity.
 Qed.
 
 (* a parked waiter is woken and consumes what it was granted *)
@@ -426,7 +427,7 @@ Proof.
            split; [reflexivity|]. split; [left; lia|]. split; [left; reflexivity|].
            split; [intros v' Nv'; split; apply upd_other; exact Nv'|].
            split; [intros X; congruence|].
-           intros X. left. exact X.
+           split; [intros X; left; exact X|]. right. split; [lia|reflexivity].
   - (* handed the lock: becomes the barrier owner *)
     assert (Lt : lockh s = Some t) by (apply T2; auto). destruct (T5 eq_refl) as [_ Bm].
     split; [exact HW|]. split.
